@@ -156,9 +156,9 @@ def work_points(task):
         acc.violation(f'c07:alphabet:{task[0]}', f'building the point alphabet raised {type(e).__name__}: {e}', {'kind': 'alphabet'})
         return acc
     for i, (stratum, p, r, origin) in enumerate(pts):
-        if stratum == 'periodic' or r < 1:
+        if r < 1:
             continue
-        if r >= 20 or i % 3 == 0:
+        if r >= 20 or i % 3 == 0 or stratum == 'periodic':      # 'periodic': longitudes written +-360 / +-720 degrees away
             check_point(acc, a5, p, r)
             acc.strata['points'] += 1
     return acc
